@@ -203,10 +203,24 @@ func lastArgLits(node ast.Node, fn string) []float64 {
 
 var out strings.Builder
 
+// fallbacks: value at the pinned commit, used ONLY so that the generated file stays well-formed when a
+// query no longer resolves (constant renamed / moved); the name is then listed in `staleFacts` and the
+// property that owns the fact has an obligation `name ∉ staleFacts` which fails.
+var fallbackNum = map[string]float64{"roundPrecision": 1e8, "choquetEps": 0.00001, "majorityEps": 1e-6, "minAllowedWeight": 0.01,
+	"defaultDistillationA": -.15, "defaultDistillationB": .3, "defaultMixingRatio": 0.5, "defaultConcealmentScaling": 1,
+	"defaultBoundingScaling": -1, "defaultApplyProbability": 1, "randomWinnerHalf": 0.5, "fatigueSignHalf": 0.5, "aspectTieHalf": 0.5}
+var stale []string
+
 func emitConst(name string, v float64, ok bool, src string) {
 	if !ok || math.IsNaN(v) || math.IsInf(v, 0) {
-		failed = append(failed, "constant "+name+" not found ("+src+")")
-		return
+		fb, has := fallbackNum[name]
+		if !has {
+			failed = append(failed, "constant "+name+" not found ("+src+")")
+			return
+		}
+		stale = append(stale, name)
+		v = fb
+		src = "STALE (query no longer resolves; pinned value): " + src
 	}
 	r := new(big.Rat).SetFloat64(v)
 	fmt.Fprintf(&out, "/-- %s = %v -/\ndef %s : Const := ⟨0x%016x, %s, %s⟩\n", src, v, name, math.Float64bits(v), r.Num().String(), r.Denom().String())
@@ -214,7 +228,7 @@ func emitConst(name string, v float64, ok bool, src string) {
 
 func emitNumExpr(name string, e ast.Expr, src string) {
 	if e == nil {
-		failed = append(failed, "expression for "+name+" not found ("+src+")")
+		emitConst(name, 0, false, src)
 		return
 	}
 	v, ok := numOf(e)
@@ -223,8 +237,9 @@ func emitNumExpr(name string, e ast.Expr, src string) {
 
 func emitStr(name, v string, ok bool, src string) {
 	if !ok {
-		failed = append(failed, "string "+name+" not found ("+src+")")
-		return
+		stale = append(stale, name)
+		v = "<stale>"
+		src = "STALE: " + src
 	}
 	fmt.Fprintf(&out, "/-- %s -/\ndef %s : String := %s\n", src, name, strconv.Quote(v))
 }
@@ -232,7 +247,7 @@ func emitStr(name, v string, ok bool, src string) {
 func emitStrDecl(name, rel, ident string) {
 	e := declValue(rel, ident)
 	if e == nil {
-		failed = append(failed, "string const "+ident+" not found in "+rel)
+		emitStr(name, "", false, rel+": "+ident)
 		return
 	}
 	// allow an alias to another package's constant (utils.ExpFromZeroFunctionName etc.)
@@ -249,7 +264,7 @@ func emitStrDecl(name, rel, ident string) {
 			}
 		}
 	}
-	failed = append(failed, "string const "+ident+" in "+rel+" is not a literal")
+	emitStr(name, "", false, rel+": "+ident+" is not a literal")
 }
 
 // identifiers of a slice/composite literal initialiser, rendered as short type names
@@ -286,8 +301,9 @@ func exprName(e ast.Expr) string {
 
 func emitStrList(name string, l []string, src string) {
 	if l == nil {
-		failed = append(failed, "list "+name+" not found ("+src+")")
-		return
+		stale = append(stale, name)
+		l = []string{}
+		src = "STALE: " + src
 	}
 	q := make([]string, len(l))
 	for i, s := range l {
@@ -423,6 +439,13 @@ func main() {
 	})
 	emitStrList("wiringFatigueGenerators", fatigueArgs, "main.go: NewFatigue(valueGenerator, signGenerator, …)")
 
+	{
+		q := make([]string, len(stale))
+		for i, s := range stale {
+			q[i] = strconv.Quote(s)
+		}
+		fmt.Fprintf(&out, "\n/-- facts whose source query no longer resolves in the working tree (their value above is the pinned fallback) -/\ndef staleFacts : List String := [%s]\n", strings.Join(q, ", "))
+	}
 	out.WriteString("\nend Rdm.Facts\n")
 	if len(failed) > 0 {
 		for _, f := range failed {
